@@ -17,11 +17,7 @@ Theorem C02_steer_decision : forall dbg cfg s c,
   c_log (fst (kalman_steer dbg cfg s c)) =
   if fabs (base_offset (k_run s)) <. dur_seconds (c_step_threshold cfg) then
     match steer_target cfg s with
-    | Ok t =>
-        match k_cur s with
-        | Some cur => SetFreq (freq_command cfg s cur t) :: c_log c
-        | None => c_log c
-        end
+    | Ok t => freq_cmds cfg s t (c_log c)
     | Panic _ => c_log c
     end
   else
@@ -49,7 +45,8 @@ Theorem C02_steer_law : forall cfg s,
    end)
   /\ forall cur t,
      freq_command cfg s cur t =
-     cur +. clamp_adjustment cur (t -. base_freq_offset (k_run s) *. c_1e6) (c_max_freq_offset cfg).
+     fclamp (cur +. clamp_adjustment cur (t -. base_freq_offset (k_run s) *. c_1e6) (c_max_freq_offset cfg))
+            (-. c_max_freq_offset cfg) (c_max_freq_offset cfg).
 Proof. exact steer_law. Qed.
 
 Theorem C02_ideal_contraction : forall st T ms : R,
